@@ -23,7 +23,7 @@ PROP = "C02"
 
 EVIDENCE = {
     "rule": "one evaluation = one scenario document (mesh, region flags, field kind, form, integrand seed, pool / thread schedules, fault); non-trivial = at least one parallel evaluation ran under a simulated pool with >1 job or under a thread schedule with >= 2 context switches, or a worker fault fired; distinct = distinct (field kind, form kind, flags, pool configuration or schedule digest)",
-    "probes_expected": ["pool:njobs>1", "pool:fallback-np-einsum", "threads:switches", "fault:pool_job", "fault:thread_body", "uniform-broadcast", "absent-block", "out-reuse", "values-passthrough", "mode3", "hess-form", "form-after-region-reload"],
+    "probes_expected": ["pool:njobs>1", "pool:fallback-np-einsum", "threads:switches", "fault:pool_job", "fault:thread_body", "uniform-broadcast", "absent-block", "out-reuse", "values-passthrough", "mode3", "hess-form", "form-after-region-reload", "shared-test-field-forms"],
     "components": {
         "real": ["felupe.assembly (all of it)", "einsumt chunking logic", "numpy einsum", "scipy.sparse"],
         "simulated": ["einsumt thread pool (SimPool: size knob, seeded job order, failing job)", "threading.Thread in the expression API (SimThreads: baton passing at sys.monitoring LINE / STORE_SUBSCR events)"],
@@ -299,6 +299,21 @@ def run_array(doc, log):
         if not ok:
             raise Violation(PROP, "schedule-independence", f"parallel result (pool size {p['n']}) differs from the serial one (rel {rel:.2e})", site="IntegralForm.assemble.parallel")
         log.count("array-parallel-compared")
+    # the same test field with two different trial fields of equal shape but different connectivity
+    # (forms created one after the other on shared field objects)
+    if doc["fieldkind"] in ("Mixed3", "Mixed3ps") and mesh.cell_type in ("quad9", "hexahedron27", "triangle6", "tetra10"):
+        vcont = fem.FieldContainer([fields[0]])
+        for disc in (False, True, False):
+            dual = fem.FieldDual(region, disconnect=disc)
+            ucont = fem.FieldContainer([dual])
+            shp = block_shape(fields[0], True, dual, False)
+            fun = rng.normal(size=shp + (nq, nc))
+            got = fem.IntegralForm([fun], vcont, region.dV, u=ucont, grad_v=[True], grad_u=[False]).assemble().toarray()
+            ref2 = refmodel.assemble_bilinear([fields[0]], [dual], region.dV, [fun], [True], [False], [(0, 0)])
+            ok, rel = close_exact_twin(got, ref2, rtol=1e-11, atol=1e-12 * (float(np.abs(ref2).max()) + 1e-300))
+            if not ok:
+                raise Violation(PROP, "ref-sum", f"rectangular (u, dual) form with a {'disconnected' if disc else 'connected'} trial field, created after other forms on the same test field, differs from the defining sum (rel {rel:.2e})", site="IntegralForm.assemble[shared-test-field]")
+        log.count("shared-test-field-forms")
     return {
         "signature": f"array|{doc['fieldkind']}|{a['form']}|{a.get('mode')}|{a.get('grad_v')}{a.get('grad_u')}|{mesh.cell_type}|u{int(bool(doc['region'].get('uniform')))}b{int(bool(a.get('broadcast')))}|{sorted(set(sig))}|{a.get('absent')}|o{int(bool(a.get('out_reuse')))}v{int(bool(a.get('values_passthrough')))}",
         "nontrivial": any(s[1] > 1 for s in sig) or bool(fired),
